@@ -3,8 +3,11 @@
 import glob, json, os, subprocess, sys
 tags = sys.argv[1:] or sorted(os.path.basename(os.path.dirname(p)) for p in glob.glob('/verif/benign/*/meta.json'))
 bad = 0
-for t in tags:
-    r = subprocess.run(['python3', '/verif/tools/benign_eval.py', t, '--skip-confirm'], stdout=subprocess.PIPE, stderr=subprocess.STDOUT, text=True)
+from concurrent.futures import ThreadPoolExecutor
+jobs = int(os.environ.get('NV_JOBS', '4'))
+with ThreadPoolExecutor(jobs) as ex:
+    results = list(ex.map(lambda t: (t, subprocess.run(['python3', '/verif/tools/benign_eval.py', t, '--skip-confirm'], stdout=subprocess.PIPE, stderr=subprocess.STDOUT, text=True)), tags))
+for t, r in results:
     try:
         j = json.loads(r.stdout[r.stdout.index('{'):])
         if j['silent']:
